@@ -12,7 +12,7 @@ def build(ctx):
     eng = ctx.engine('cargo-fmt', loop_bound=8)
     N = 3 if ctx.tier == 'quick' else 4
     ctx.bounds = {'rustfmt invocations (edition groups)': '0..%d' % N, 'child status': 'success flag and Option<i32> code symbolic, std contract success <=> code == Some(0)'}
-    ctx.outside = ['target discovery (cargo metadata, workspace walking, path dependencies)', 'the argument vector given to each rustfmt (files, --edition, pass-through args)',
+    ctx.outside = ['cargo metadata itself, get_targets_recursive / get_targets_with_hitlist (path dependencies, -p)', 'the argument vector given to each rustfmt (files, --edition, pass-through args)',
                    'flag parsing (clap)']
     ctx.assumptions = ['ExitStatus::{success, code}: success() <=> code() == Some(0); code() == None means killed by a signal',
                        'Command building / spawn / wait are uninterpreted; each may fail with an io::Error (the function then returns Err)',
